@@ -322,7 +322,12 @@ func runWorker(chk *Check, tier, spec string) int {
 	total := f.N(tier)
 	r := newRec()
 	r.fam = f
-	out := bufio.NewWriter(os.Stdout)
+	// protocol goes over fd 3; the program under test may print to stdout (prn, spew, ...)
+	proto := os.NewFile(3, "proto")
+	out := bufio.NewWriter(proto)
+	if dn, err := os.OpenFile(os.DevNull, os.O_WRONLY, 0); err == nil {
+		os.Stdout = dn
+	}
 	var cur atomic.Int64
 	cur.Store(-1)
 	to := f.Timeout
@@ -525,13 +530,20 @@ func (p *Parent) superviseWorker(f *Family, k, n int, total int64, famRec *Rec, 
 		cmd := exec.Command(os.Args[0], p.Check.ID, "--tier", p.Tier, "--worker", spec)
 		cmd.Env = append(os.Environ(), fmt.Sprintf("VERIF_DEADLINE_NS=%d", p.Deadline.UnixNano()), "GOMAXPROCS=2", "VERIF_SKIP="+strings.Join(skips, ","))
 		cmd.Stdin = nil
-		stdout, _ := cmd.StdoutPipe()
+		pr, pw, perr := os.Pipe()
+		if perr != nil {
+			p.Internal("pipe: " + perr.Error())
+			return false
+		}
+		cmd.ExtraFiles = []*os.File{pw}
+		stdout := pr
 		var stderr tailBuf
 		cmd.Stderr = &stderr
 		if err := cmd.Start(); err != nil {
 			p.Internal("cannot start worker: " + err.Error())
 			return false
 		}
+		pw.Close()
 		var last *workerMsg
 		sc := bufio.NewScanner(stdout)
 		sc.Buffer(make([]byte, 1<<20), 1<<28)
@@ -543,6 +555,7 @@ func (p *Parent) superviseWorker(f *Family, k, n int, total int64, famRec *Rec, 
 			}
 		}
 		err := cmd.Wait()
+		pr.Close()
 		if last != nil && (last.T == "done" || last.T == "deadline") {
 			mu.Lock()
 			merge(famRec, last.Rec)
